@@ -17,6 +17,7 @@ limitations under the License.
 
 #pragma once
 
+#include <algorithm>      // std::min, std::max
 #include <exception>      // std::rethrow_exception, std::current_exception
 #include <string>         // std::string
 #include <type_traits>    // std::enable_if_t, std::is_base_of_v
@@ -429,9 +430,19 @@ inline py::tuple StructSequenceGetFieldsImpl(const py::handle& type) {
         py::dict(py::arg("cls") = type, py::arg("fields") = fields));
     return py::tuple{fields};
 #else
-    const auto n_sequence_fields = thread_safe_cast<py::ssize_t>(
-        EVALUATE_WITH_LOCK_HELD(py::getattr(type, Py_Get_ID(n_sequence_fields)), type));
     const auto* const members = reinterpret_cast<PyTypeObject*>(type.ptr())->tp_members;
+    py::ssize_t n_members = 0;
+    if (members != nullptr) [[likely]] {
+        // NOLINTNEXTLINE[cppcoreguidelines-pro-bounds-pointer-arithmetic]
+        while (members[n_members].name != nullptr) {
+            ++n_members;
+        }
+    }
+    // The class attribute can be rebound: never read past the member table (same as `fields[:n]`)
+    auto n_sequence_fields = thread_safe_cast<py::ssize_t>(
+        EVALUATE_WITH_LOCK_HELD(py::getattr(type, Py_Get_ID(n_sequence_fields)), type));
+    n_sequence_fields = (n_sequence_fields < 0 ? std::max<py::ssize_t>(n_members + n_sequence_fields, 0)
+                                               : std::min<py::ssize_t>(n_sequence_fields, n_members));
     py::tuple fields{n_sequence_fields};
     for (py::ssize_t i = 0; i < n_sequence_fields; ++i) {
         // NOLINTNEXTLINE[cppcoreguidelines-pro-bounds-pointer-arithmetic]
